@@ -199,7 +199,10 @@ FS_ASSUME = [
 
 
 def c03_units(tier):
-    return [
+    extra = []
+    if tier == "thorough":
+        extra = [Unit("crash-then-append-2", HSFS, "zzC03_CrashThenAppend_2", dict(FSFLAGS, only="C03/", loop=56), bounds="as crash-then-append with an initial log of <=2 arbitrary lines")]
+    return extra + [
         Unit("compact-stale-tmp", HSFS, "zzC03_CompactStaleTmp", dict(FSFLAGS, only="C03/"), bounds="clean log of <=1 event; a stale <log>.tmp with arbitrary (longer) content may exist; compact"),
         Unit("crash-then-append", HSFS, "zzC03_CrashThenAppend", dict(FSFLAGS, only="C03/"), bounds="initial log: one arbitrary line satisfying the world invariant (blank / event / torn tail); process A = new task killed at any effect index, write torn or not; then a reader, a surviving writer, a reader; the world invariant is re-established, so crash/write rounds of any number are covered by induction"),
     ]
@@ -282,6 +285,9 @@ def c12_units(tier):
         Unit("pure-show", HS12, "zzC12_PureShow", fshow, note="CUT: collectEpicChildren (display) summarised", bounds="show --json <any id>"),
         Unit("pure-prune-dry-run", HS12, "zzC12_PurePrune", f, bounds="prune without --yes"),
     ] + [Unit("history-grows-" + n.lower(), HS12, "zzC12_History" + n, f, bounds="clean log of <=2 arbitrary events; the command succeeds or fails; every initial line must still be present with identical content") for n in ("NewTask", "Claim", "Plan", "Prune")]
+    if tier == "thorough":
+        us.append(Unit("located-parse-errors-5", HS12, "zzC12_ParseErrors_5", f, bounds="ANY log of <=5 lines"))
+        us.append(Unit("total-replay-and-readers-3", HS12, "zzC12_Total_3", dict(f, nopanics_off="", loop=48), bounds="ANY 3 events through replay and every JSON-side reader"))
     return us
 
 
